@@ -11,6 +11,9 @@ CLAIMED = {
          "Trusted: z3, go/ssa, engine intrinsics for bytealg/math/big (Int theory, Skolem decimal digits). Bound: strings <= 4 bytes (quick). Longer strings are outside the claim.", "5/C15"),
 }
 
+CLAIMED["C16"] = ("The wallet reader utils.ParsePkScript and the consensus reader txscript.ExtractPkScriptAddrs (parseScript, typeOfScript, GetParsedOpcode, address constructors) are executed symbolically on the same script bytes and compared: exact template shapes with every payload, every second-push length 1..40, every proper prefix of the templates, templates with one opcode byte replaced by any byte, every byte string up to 3 bytes (5 in the thorough tier), and the consensus builders read back. Run-time panics of either reader are implicit assertions. Bounded model checking fits: the readers are byte-level parsers whose disagreement needs one specific byte value.",
+         "Trusted: z3, go/ssa, engine intrinsics; bech32/base58 address text is an injective abstract encoding (equal inputs <-> equal text), so text equality is decided on the encoded bytes. Outside: arbitrary scripts longer than 5 bytes other than template-shaped ones; address text decoding.", "5/C16")
+
 CLAIMED["C14"] = ("The real hdkeychain Child/Neuter/String/NewKeyFromString are executed symbolically for arbitrary parent keys (private scalar stored in 1..32 bytes, arbitrary chain code, index, depth) with HMAC-SHA512, SHA-256, RIPEMD-160 and secp256k1 as uninterpreted functions and compared with the BIP-32 CKDpriv/CKDpub/serialisation formulas written against the same primitives; z3 decides every assertion on every path. The derivation formulas are pure byte/bignum plumbing around opaque primitives, exactly what bounded symbolic execution decides; the known defect (short parent scalar) is a 1/256 corner that tests with fixed vectors do not reach.",
          "Trusted: z3, go/ssa, intrinsics (math/big as 264-bit vectors, x mod n by Skolem quotient, hashes/curve uninterpreted, base58 injective). Not claimed: correctness of HMAC/curve arithmetic; the ki=0 / IL>=n branches cannot be replayed (need hash pre-images). One derivation step from an arbitrary parent covers paths of any depth by induction on the parent invariant 0<k<n.", "5/C14")
 
